@@ -1102,6 +1102,14 @@ def tab19(units, R):
             dmax = disp.get('*ret') if by_value else disp.get('*pp')       # how far the caller's cursor ends up from where this iteration started
             constrained = {a: v for a, v in B.items() if v != ALL}
             if any(a < 0 for a in constrained):
+                # a look behind the cursor that is fenced by a comparison of positions (cursor > start of the comment text) can be
+                # sound; comparisons of positions are not evaluated by this rule
+                ptr_cmp = [x_ for x_ in fn.nodes() if x_.get('k') == 'bin' and x_.get('op') in ('<', '<=', '>', '>=') and
+                           u.ty(strip_casts(x_['l']).get('ty0', strip_casts(x_['l']).get('ty')))['c'] == 'ptr' and
+                           u.ty(strip_casts(x_['r']).get('ty0', strip_casts(x_['r']).get('ty')))['c'] == 'ptr']
+                if ptr_cmp:
+                    raise AnalysisBroken('TAB19: %s: %s looks at a byte behind the cursor under a comparison of positions (%s); which bytes '
+                                         'can stand there is not evaluated by this rule' % (fn.where(ptr_cmp[0]), name, expr_str(ptr_cmp[0])[:40]))
                 n_ob += 1
                 R.ob('TAB19', fn, None, '%s decides only on bytes at or after the cursor' % name, False,
                      'a byte %d position(s) behind the cursor takes part in ending the comment' % -min(constrained), key='behind:' + name)
